@@ -148,10 +148,19 @@ Qed.
 
 Definition expr_ok (e : bytes) : Prop := check_expr e <> [] /\ N.eqb (last_byte (check_expr e)) 32 = false.
 
-Lemma p_check_step b k : b <> [] -> expr_ok (k_expr k) ->
+(** a name without a backtick is written as it is ([bIdent] doubles the quote character since the fix of Ident) *)
+Lemma esc_ident_word n : forallb is_word n = true -> esc_ident n = n.
+Proof.
+  induction n as [|c n IH]; cbn [forallb esc_ident flat_map]; intro H; [reflexivity|].
+  apply andb_true_iff in H. destruct H as [Hc H]. fold (esc_ident n). rewrite (IH H).
+  destruct (N.eqb c ch_bt) eqn:E; [|reflexivity]. apply N.eqb_eq in E. subst c. discriminate.
+Qed.
+Definition chk_ok (k : check) : Prop := expr_ok (k_expr k) /\ esc_ident (k_name k) = k_name k.
+
+Lemma p_check_step b k : b <> [] -> chk_ok k ->
   p_check (bComma b) k = norm b ++ sep ++ print_check (kopt k) ++ [32].
 Proof.
-  intros Hb [He Hel]. rewrite (bComma_norm b Hb). unfold p_check, kopt, print_check. cbn [fst snd].
+  intros Hb [[He Hel] Hesc]. rewrite (bComma_norm b Hb). unfold p_check, kopt, print_check. cbn [fst snd].
   set (bc := norm b ++ sep).
   assert (bc <> []) as Hbc by (unfold bc, sep; destruct (norm b); discriminate).
   assert (last_byte bc = 32) as Hbcl by (unfold bc, sep; rewrite last_byte_app by discriminate; reflexivity).
@@ -162,7 +171,7 @@ Proof.
     unfold bc. repeat rewrite <- app_assoc. reflexivity.
   - unfold bP. cbn [fold_left].
     rewrite (bP1_sp bc K_CONSTRAINT Hbc Hbcl) by (discriminate || reflexivity).
-    unfold bIdent.
+    unfold bIdent. rewrite Hesc.
     set (b1 := (bc ++ K_CONSTRAINT ++ [32]) ++ ch_bt :: (n0 :: n) ++ [ch_bt; 32]).
     assert (b1 <> []) as Hb1 by (unfold b1; destruct (bc ++ K_CONSTRAINT ++ [32]); discriminate).
     assert (last_byte b1 = 32) as Hb1l.
@@ -178,7 +187,7 @@ Qed.
 Lemma norm_snoc_sp b : norm (b ++ [32]) = b.
 Proof. unfold norm. rewrite last_byte_snoc. change (N.eqb 32 32) with true. cbn iota. apply removelast_last. Qed.
 
-Lemma fold_checks cks : Forall (fun k => expr_ok (k_expr k)) cks -> forall b, b <> [] ->
+Lemma fold_checks cks : Forall chk_ok cks -> forall b, b <> [] ->
   fold_left (fun b k => p_check (bComma b) k) cks b =
   match cks with [] => b | _ => norm b ++ checks_text (map kopt cks) ++ [32] end.
 Proof.
@@ -200,7 +209,7 @@ Proof. unfold bClose. rewrite last_byte_snoc. change (N.eqb 32 32) with true. cb
 Lemma bClose_norm b : bClose b = norm b ++ [ch_rp].
 Proof. unfold bClose, norm. destruct (N.eqb (last_byte b) 32); reflexivity. Qed.
 
-Lemma closed_checks b3 cks : b3 <> [] -> Forall (fun k => expr_ok (k_expr k)) cks ->
+Lemma closed_checks b3 cks : b3 <> [] -> Forall chk_ok cks ->
   bClose (fold_left (fun b k => p_check (bComma b) k) cks b3) = norm b3 ++ checks_text (map kopt cks) ++ [ch_rp].
 Proof.
   intros Hb H. rewrite (fold_checks cks H b3 Hb). destruct cks as [|k cks].
@@ -286,12 +295,12 @@ Qed.
 
 (** ** fillChecks inverts the planner's CREATE TABLE *)
 Definition check_wf (k : check) : Prop :=
-  (k_name k = [] \/ name_ok (k_name k)) /\ wrapped (k_expr k).
+  (k_name k = [] \/ name_ok (k_name k)) /\ wrapped (k_expr k) /\ may_wrap (k_expr k) = k_expr k.
 
 Lemma check_wf_ok k : check_wf k -> check_ok (kopt k) /\ expr_ok (k_expr k).
 Proof.
-  intros [Hn Hw]. destruct (check_expr_wrapped _ Hw) as (Hce & e' & He'). split.
-  - split; [|exact Hw]. unfold kopt. cbn [fst]. destruct (k_name k) eqn:E; [exact I|].
+  intros [Hn [Hw Hmw]]. destruct (check_expr_wrapped _ Hw Hmw) as (Hce & e' & He'). split.
+  - split; [|exact (conj Hw Hmw)]. unfold kopt. cbn [fst]. destruct (k_name k) eqn:E; [exact I|].
     destruct Hn as [Hn|Hn]; [discriminate|]. exact Hn.
   - unfold expr_ok. rewrite Hce. split; [rewrite He'; discriminate|].
     destruct Hw as (b & p & -> & _). change (ch_lp :: b ++ [ch_rp]) with ((ch_lp :: b) ++ [ch_rp]).
@@ -310,8 +319,9 @@ Proof.
   intros Hb Ht Hfree Hwf. unfold print_table in Ht. rewrite Hb in Ht. injection Ht as <-.
   pose proof (good_print_body x b3 Hb) as Hg.
   assert (b3 <> []) as Hne by (destruct Hg as (t & -> & _); discriminate).
-  assert (Forall (fun k => expr_ok (k_expr k)) (t_checks (x_t x))) as He.
-  { eapply Forall_impl; [|exact Hwf]. intros k Hk. exact (proj2 (check_wf_ok k Hk)). }
+  assert (Forall chk_ok (t_checks (x_t x))) as He.
+  { eapply Forall_impl; [|exact Hwf]. intros k Hk. split; [exact (proj2 (check_wf_ok k Hk))|].
+    destruct Hk as [[Hn|[_ Hn]] _]; [rewrite Hn; reflexivity|apply esc_ident_word; exact Hn]. }
   assert (Forall check_ok (map kopt (t_checks (x_t x)))) as Hok.
   { apply Forall_forall. intros k' Hin. apply in_map_iff in Hin. destruct Hin as (k & <- & Hin).
     rewrite Forall_forall in Hwf. exact (proj1 (check_wf_ok k (Hwf k Hin))). }
